@@ -235,6 +235,15 @@ func (v View) Len() int {
 	return n
 }
 
+// Versions is the total number of versions visible in the view.
+func (v View) Versions() int {
+	n := 0
+	for _, k := range v.m.keys {
+		n += len(v.versions(k))
+	}
+	return n
+}
+
 // Get returns the latest version of key and the number of versions it has.
 func (v View) Get(key []byte) (ver Version, count uint64, ok bool) {
 	vs := v.versions(string(key))
